@@ -235,6 +235,17 @@ func c17Types() []c17Type {
 		return limit.NewVegasLimitWithRegistry("t", 4, nil, 10, 1.0, nil, nil, nil, nil, nil, 2, nil, nil)
 	},
 		ops: append(sampleOps(asLimit), c17Op{"RTTNoLoad", func(i any) { i.(*limit.VegasLimit).RTTNoLoad() }})})
+	// probing variants: with these settings every sample takes the probe branch (baseline swap / reset)
+	ts = append(ts, c17Type{name: "limit.VegasLimit(probing)", mk: func() any {
+		l := limit.NewVegasLimitWithRegistry("t", 2, nil, 10, 1.0, nil, nil, nil, nil, nil, 1, nil, nil)
+		l.OnSample(0, 1e6, 5, false)
+		return l
+	}, ops: append(sampleOps(asLimit), c17Op{"RTTNoLoad", func(i any) { i.(*limit.VegasLimit).RTTNoLoad() }})})
+	ts = append(ts, c17Type{name: "limit.GradientLimit(probing)", mk: func() any {
+		l := limit.NewGradientLimitWithRegistry("t", 4, 1, 10, 1.0, functions.FixedQueueSizeFunc(2), 2.0, 1, nil, nil)
+		l.OnSample(0, 1e6, 5, false)
+		return l
+	}, ops: append(sampleOps(asLimit), c17Op{"RTTNoLoad", func(i any) { i.(*limit.GradientLimit).RTTNoLoad() }})})
 	ts = append(ts, c17Type{name: "limit.GradientLimit", mk: func() any {
 		return limit.NewGradientLimitWithRegistry("t", 4, 1, 10, 1.0, functions.FixedQueueSizeFunc(2), 2.0, 3, nil, nil)
 	}, ops: append(sampleOps(asLimit), c17Op{"RTTNoLoad", func(i any) { i.(*limit.GradientLimit).RTTNoLoad() }})})
@@ -452,7 +463,36 @@ func c17Types() []c17Type {
 			delete(ddClients, i.(*ddreg.MetricRegistry))
 		}
 	}})
-	return ts
+	// warmed variants: the same calls from a non-initial state (past warm-up windows, after a drop)
+	var warmed []c17Type
+	for _, ty := range ts {
+		ty := ty
+		if !strings.HasPrefix(ty.name, "limit.") && !strings.HasPrefix(ty.name, "measurements.") {
+			continue
+		}
+		if strings.Contains(ty.name, "probing") || strings.Contains(ty.name, "ImmutableSampleWindow") {
+			continue
+		}
+		base := ty.mk
+		w := ty
+		w.name = ty.name + "(warmed)"
+		w.mk = func() any {
+			inst := base()
+			switch x := inst.(type) {
+			case core.Limit:
+				for k := 0; k < 4; k++ {
+					x.OnSample(int64(k)*2e8, 1e6+int64(k)*1e5, 12, k == 2)
+				}
+			case core.MeasurementInterface:
+				for k := 0; k < 6; k++ {
+					x.Add(float64(3 + k))
+				}
+			}
+			return inst
+		}
+		warmed = append(warmed, w)
+	}
+	return append(ts, warmed...)
 }
 
 // uncovered lists the exported methods of each instance type that no op name mentions.
